@@ -95,6 +95,17 @@ def cas_shape(ctx, R, rule, q, table, label):
     for w in wh:
         for a in w.args:
             conds.extend(flatten_and(a))
+    # a condition given a name first is that condition
+    for _i in range(2):
+        resolved = []
+        for c in conds:
+            if isinstance(c, ast.Name):
+                d = single_def(f, c.id)
+                if d is not None:
+                    resolved.extend(flatten_and(d.value))
+                    continue
+            resolved.append(c)
+        conds = resolved
     id_ok = gen_ok = False
     gen_rhs = None
     for c in conds:
@@ -273,11 +284,23 @@ def early_checks(ctx, impl):
     raising the 409: [(if node, X name)]."""
     out = []
     for n in own_nodes(impl.node):
-        if not (isinstance(n, ast.If) and isinstance(n.test, ast.Compare)
-                and len(n.test.ops) == 1 and isinstance(
-                    n.test.ops[0], ast.NotEq)):
+        if not isinstance(n, ast.If):
             continue
-        sides = [n.test.left, n.test.comparators[0]]
+        # the comparison itself, its negation, or a local flag bound to it
+        t, neg = n.test, False
+        for _i in range(3):
+            if isinstance(t, ast.UnaryOp) and isinstance(t.op, ast.Not):
+                t, neg = t.operand, not neg
+            elif isinstance(t, ast.Name):
+                d = single_def(impl, t.id)
+                if d is None:
+                    break
+                t = d.value
+        if not (isinstance(t, ast.Compare) and len(t.ops) == 1 and (
+                isinstance(t.ops[0], ast.NotEq) and not neg or
+                isinstance(t.ops[0], ast.Eq) and neg)):
+            continue
+        sides = [t.left, t.comparators[0]]
         x = None
         other = None
         for a, b in ((sides[0], sides[1]), (sides[1], sides[0])):
